@@ -220,6 +220,10 @@ def _save_file(
         # Save each shard, loading only necessary tensor data
         all_filenames = []
         weight_map: dict[str, str] = {}  # Maps tensor name to shard filename
+        # The shards partition tensors_to_save in order, so the values can be paired
+        # with the tensors again. Tensors are stored under the name of their value:
+        # a tensor's own name may differ from it (or be shared between values).
+        value_names = iter(value.name for value in values_to_save)
         current_offset = 0
         current_index = 0
         for shard_idx, tensor_shard in enumerate(tensor_shards, start=1):
@@ -243,14 +247,15 @@ def _save_file(
                             shard_index=shard_index,
                         ),
                     )
-                assert tensor.name is not None
-                shard_dict[tensor.name] = {
+                value_name = next(value_names)
+                assert value_name is not None
+                shard_dict[value_name] = {
                     "dtype": _IR_DTYPE_TO_SAFETENSORS_DTYPE[tensor.dtype],
                     "shape": _get_tensor_storage_shape(tensor),
                     "data": tensor.tobytes(),
                 }
                 # Update weight_map with shard filename
-                weight_map[tensor.name] = shard_filename
+                weight_map[value_name] = shard_filename
                 current_offset += tensor.nbytes
                 current_index += 1
 
